@@ -1,4 +1,8 @@
-(** * F_C13: the code AS WRITTEN violates C13 (witness replayed on /repo by tools/props/C13.py).
+(** * F_C13: HISTORY.  The code as it was before fix 4ab4abd (D12) violated C13; the refutations below are about the
+    in-place form [tg_scale true] and are kept as the record of the defect.  The repaired out-of-place form
+    [tg_scale false] is the one the gating theorems (Props/C13.v: caller_arrays_unchanged, trace_generic_args_safe,
+    tg_scale_twice_same) are about, and tools/props/C13.py selects the form from the CURRENT source on every run
+    (c13lib.inplace_params) and replays the original input, so a regression alarms.
     Compiled separately; never gates the check. *)
 From Coq Require Import Reals Lra List.
 From OV Require Import Ops RInst Model.M_C13 Spec.S_C13 Lemmas.L_C13.
